@@ -391,7 +391,7 @@ func init() {
 		Explain: "Structural necessary conditions of Join/Getw/Slice (DESIGN.md 5/C14): unit consistency incl. the allocation (E4; this rule found the Slice allocation defect D2, now fixed), shift/mask pairing, allocation = ceil(bits/64), writer/reader agreement of the packing position i*w, mask Mask[w], Slice's bit copy (source i in [from,to) exactly, destination i-from, written only for set bits), and E1: inputs never written, results fresh.",
 		NotDec:  []string{"that (v & Mask[w]) << off never crosses a word for w | 64 (arithmetic)", "contents of the Mask table"},
 		Trusted: []string{"go/ssa construction"},
-		Quick:   []Config{cfgDefault}, Thorough: []Config{cfgDefault, cfg386},
+		Quick:   []Config{cfgDefault, cfg386}, Thorough: []Config{cfgDefault, cfg386},
 		Run: runC14,
 	})
 }
